@@ -163,7 +163,16 @@ def gen_context(r):
     appdeps = []
     for _ in range(r.choice([0, 0, 1, 2])):
         base = r.choice(['Foo', 'bar', 'Baz-2', 'qux_tools', 'DPD', 'lammps'])
-        appdeps.append(r.choice(['/opt/apps/%s.application', '%s.package', '%s', '/a/b/%s.d/', '/x/%s']) % base)
+        if r.random() < 0.45:
+            # a folder name with dots besides the extension ('md.tools.application', 'CAF2.1.application'): only the
+            # LAST suffix is the extension
+            base = r.choice(['md.tools', 'CAF2.1', 'viz.v1.2', 'Open.MM', 'a.b.c', 'x-1.y_2',
+                             _rand_token(r, 1, 4) + '.' + _rand_token(r, 1, 3),
+                             _rand_token(r, 1, 3) + '.' + _rand_token(r, 1, 2) + '.' + _rand_token(r, 1, 2)])
+            if is_absolute_spelling(base) or not _name_ok(base.lower()):
+                base = 'md.tools'
+        appdeps.append(r.choice(['/opt/apps/%s.application', '%s.package', '%s', '/a/b/%s.d/', '/x/%s',
+                                 '/opt/apps/%s.application/', '%s.application']) % base)
     # a component that shares its name with a (non reserved) folder, living in its own stage: only its
     # explicit-stage spelling is unambiguous (the relative spelling is skipped by the judge)
     if r.random() < 0.35:
@@ -173,7 +182,27 @@ def gen_context(r):
             free = [s for s in range(0, 14) if str(s) not in known]
             known[str(r.choice(free))] = [r.choice(folders)]
     ctx = {'stage': int(r.choice(stages)), 'known': known, 'manifest': manifest, 'appdeps': appdeps}
+    # a component (in the consumer's stage, so that its relative spelling is judged) whose name is a proper
+    # dot-prefix of an application-dependency folder name ('md' next to 'md.tools.application'): it is a component
+    # like any other, 'md' is not the name of that application dependency
+    prefixes = sorted(p for p in dot_prefixes(ctx) if _name_ok(p))
+    if prefixes and r.random() < 0.8:
+        p = r.choice(prefixes)
+        mine = known[str(ctx['stage'])]
+        if p not in mine:
+            mine.insert(r.randint(0, len(mine)), p)
     return ctx
+
+
+def dot_prefixes(ctx):
+    """Proper dot-prefixes of the application-dependency folder names of a context ('viz', 'viz.v1' for
+    'viz.v1.2') that are not themselves folders of the context."""
+    out = set()
+    for a in ctx['appdeps']:
+        parts = appdep_name(a).split('.')
+        for i in range(1, len(parts)):
+            out.add('.'.join(parts[:i]))
+    return out - ref_folders(ctx)
 
 
 def appdep_name(app_dep):
@@ -228,6 +257,10 @@ def gen_ref(r, ctx):
             name = r.choice(known[st])
         else:
             name = gen_name(r)
+        near = sorted(set(known[str(ctx['stage'])]) & dot_prefixes(ctx))
+        if near and r.random() < 0.2:
+            # the component named like the head of a dotted application-dependency name, from its own stage
+            st, name = str(ctx['stage']), r.choice(near)
         ref['name'] = name
         if r.random() < 0.55 or int(st) != ctx['stage']:
             ref['explicit_stage'] = int(st)
@@ -476,6 +509,8 @@ def judge(ref, ctx, do_validate=False):
                     fail('c4_expand_potential_noncomp', feed, {'got': pot})
             if truth[0] == 'comp':
                 hit('c4_full_comp')
+                if ref['explicit_stage'] is None and truth[2] in dot_prefixes(ctx):
+                    hit('c4_appdep_prefix_comp_relative')
                 want = (truth[1], truth[2], ref['rest'], ref['method'])
                 if tuple(full) != want:
                     fail('c4_full_comp', feed, {'got': list(full), 'want': list(want)})
@@ -485,6 +520,8 @@ def judge(ref, ctx, do_validate=False):
                     fail('c4_is_component', feed, {'got': isc, 'want': True})
             else:
                 hit('c4_full_noncomp')
+                if ref['kind'] == 'appdep' and '.' in ref['name']:
+                    hit('c4_dotted_appdep_noncomp')
                 if full[0] is not None:
                     fail('c4_full_noncomp', feed, {'got': list(full)})
                 if isc is not False:
@@ -591,7 +628,8 @@ def judge_and_report(ref, ctx, vname, w, do_validate=False):
     if truth[0] != 'unknown' or ref['kind'] == 'comp':
         w.distinct('|'.join([ref['kind'], 'E' if ref['explicit_stage'] is not None else 'R', name_shape(ref['name']),
                              str(depth), ref['method'], truth[0], vname,
-                             'N' if any('/' in k for k in ctx['manifest']) else 'P']))
+                             'N' if any('/' in k for k in ctx['manifest']) else 'P',
+                             'X' if ref['kind'] == 'comp' and ref['name'] in dot_prefixes(ctx) else '-']))
     if w.evaluations % 997 == 1:
         w.sample({'reference': ref['text'],
                   'parts': {k: ref[k] for k in ('kind', 'explicit_stage', 'name', 'rest', 'method')},
@@ -680,7 +718,9 @@ def main():
                        "its non-component signal) so their exact round trip is judged on ParseDataReference + "
                        "compile_reference and on DataReference",
                        "manifest keys are never of the form 'stage<digits>.<rest>'; application-dependency folder name = basename "
-                       "without extension, lower-cased (documentation of application_dependency_to_name)",
+                       "without extension, lower-cased (documentation of application_dependency_to_name); for a folder name with several "
+                       "dots ('md.tools.application', 'CAF2.1.package') only the last suffix is the extension; a component named "
+                       "like a proper dot-prefix of such a name ('md') is a component like any other",
                        "for references to folders only classification and self-consistency are judged, not how the "
                        "path is split between producer and file",
                    ])
@@ -724,6 +764,8 @@ def main():
     c.floor('c6_variable_parts_agree', 2500 if c.tier == 'quick' else 40000)
     c.floor('c4_validate_references', 60000 if c.tier == 'quick' else 900000)
     c.floor('c2_idempotent', c.floors['evaluations'])
+    c.floor('c4_dotted_appdep_noncomp', 400 if c.tier == 'quick' else 6000)
+    c.floor('c4_appdep_prefix_comp_relative', 120 if c.tier == 'quick' else 2000)
     sys.exit(c.finish())
 
 
